@@ -268,13 +268,13 @@ class AuthorizationServer:
 
         endpoints = self._endpoints[name]
         for endpoint in endpoints:
-            request = endpoint.create_endpoint_request(request)
+            endpoint_request = endpoint.create_endpoint_request(request)
             try:
-                return self.handle_response(*endpoint(request))
+                return self.handle_response(*endpoint(endpoint_request))
             except ContinueIteration:
                 continue
             except OAuth2Error as error:
-                return self.handle_error_response(request, error)
+                return self.handle_error_response(endpoint_request, error)
 
     def create_authorization_response(self, request=None, grant_user=None):
         """Validate authorization request and create authorization response.
